@@ -15,6 +15,7 @@ import (
 	"encoding/hex"
 	"fmt"
 	"math/rand"
+	"strconv"
 	"strings"
 	"sync/atomic"
 	"time"
@@ -580,8 +581,17 @@ func c07Exec(ops []string, prop string) vResult {
 				s.st.ReleaseReadAndReuse()
 				c.tags["release-and-reuse"] = true
 				return "ok" + c.suffix(x, id)
-			case f[0] == "pool" && len(f) == 2 && c.pool == nil:
+			case f[0] == "pool" && (len(f) == 2 || len(f) == 3) && c.pool == nil:
 				c.pool = newStreamPool(uint32(vAtoi(f[1])))
+				if len(f) == 3 {
+					// an aged pool: its ring counters have already counted this many get/put cycles
+					age, err := strconv.ParseUint(f[2], 10, 64)
+					if err != nil {
+						return "bad-op"
+					}
+					c.pool.head, c.pool.tail = age, age
+					c.tags["pool-aged"] = true
+				}
 				c.pool.session.Store(c.ends["a"].s)
 				c.heldP = map[int]bool{}
 				return "ok"
@@ -880,7 +890,7 @@ func c15Gen(r *rand.Rand) []string {
 	}
 	cls := [][]string{{"16:8"}, {"8:6", "32:4"}}[r.Intn(2)]
 	caps, _ := c06Classes(cls)
-	ops := []string{fmt.Sprintf("init %d %s", []int{2, 4, 8}[r.Intn(3)], strings.Join(cls, " ")), fmt.Sprintf("pool %d", r.Intn(4))}
+	ops := []string{fmt.Sprintf("init %d %s", []int{2, 4, 8}[r.Intn(3)], strings.Join(cls, " ")), c07PoolOp(r)}
 	var seq byte
 	n := 8 + r.Intn(40)
 	id := func() int { return 2 + r.Intn(4) }
@@ -914,6 +924,16 @@ func c15Gen(r *rand.Rand) []string {
 		}
 	}
 	return ops
+}
+
+// pool of capacity 0..3; one in three has ring counters that are about to pass 2^32 (capacities that do not divide 2^32
+// must not notice)
+func c07PoolOp(r *rand.Rand) string {
+	cp := r.Intn(4)
+	if r.Intn(3) == 0 {
+		return fmt.Sprintf("pool %d %d", cp, uint64(1)<<32-uint64(1+r.Intn(3)))
+	}
+	return fmt.Sprintf("pool %d", cp)
 }
 
 func c07Gen(r *rand.Rand, tier string, idx int, flavour string) []string {
